@@ -105,7 +105,249 @@ def unit_rewrite_primary(twin=False):
     return _rewrite_unit("rewrite_eqn_to_primary", "C01.rewrite_eqn_to_primary.adds_defining_reaction_times_coefficient_until_primary_masters", _master_primary, "primary", twin)
 
 
+
+def unit_trxn_add(twin=False):
+    """trxn_add(r, c, combine): the work reaction gets every token of r with coefficient c x its own, appended at count_trxn, and
+    log K (all MAX_LOG_K_INDICES coefficients, so that k_calc of the sum is the sum of the k_calc) += c x log K of r — the SAME multiple;
+    when the work reaction is empty (count_trxn == 0) the log K is copied (all callers pass c = 1 then: checked)."""
+    q = "Phreeqc::trxn_add"
+    fn = A.find_function(STRUCT, q)
+    r = U.new_unit("C01.trxn_add.logk_and_tokens_scaled_by_the_same_multiple", STRUCT, q, fn)
+    c = ctx(functional=("Get_logk", "Get_dz"), enums_from="global_structures.h", enums=("MAX_LOG_K_INDICES",))
+    f, ex, fin, info = U.run_function(STRUCT, q, default="iter", ctx=c)
+    coef = tm.sym("P1_coef", "R"); rref = tm.sym("P0_r_ref_ref", "P")
+    nK = c.enum_values["MAX_LOG_K_INDICES"]
+    i = tm.sym("iter_i", "I")
+    seen = {"logk.copy": 0, "logk.add": 0, "dz.copy": 0, "dz.add": 0, "tok": 0}
+    cnt0 = tm.select(tm.sym("H0.count_trxn:I", ("A", "P", "I")), THIS)
+    for k, sts in sorted(info["iter"].items()):
+        for s in lives(sts, ("run", "cont")):
+            hy = list(s.pc)
+            ws = U.iter_writes(s)
+            for key, ix, v in ws:
+                if key != ("m", "R"):
+                    continue
+                base, idx = ix
+                which = "logk" if base is tm.app("fld:logk", (tm.app("fld:trxn", (THIS,), "P"),), "P") else ("dz" if base is tm.app("fld:dz", (tm.app("fld:trxn", (THIS,), "P"),), "P") else None)
+                if which is None:
+                    put(r, "frame.no_other_real_array_written", False, repr(ix), kind="frame"); continue
+                if not put(r, "%s.written_at_the_loop_index[loop %d]" % (which, k), idx.op == "sym" and str(idx.args[0]).startswith("iter_"), repr(idx), kind="frame"):
+                    continue
+                i = idx
+                src_arr = tm.app("call:Get_%s" % which, (rref,), "P")
+                mem0 = entry_arr(ex, s, ("m", "R"))
+                srcv = tm.select(mem0, src_arr, i)
+                old = tm.select(mem0, base, i)
+                for hyc, empty in cases(hy, tm.eq(cnt0, I(0))):
+                    if empty:
+                        seen[which + ".copy"] += 1
+                        eqr(r, "%s.empty_work_reaction.copied" % which, hyc, v, srcv)
+                    else:
+                        seen[which + ".add"] += 1
+                        eqr(r, "%s.accumulated_with_the_multiple(+= coef*source)" % which, hyc, v, old + (coef if not (twin and which == "logk") else tm.num(1)) * srcv)
+                # the loop covers every coefficient
+                n = nK if which == "logk" else 3
+                bound = [p for p in s.pc if i in tm.subterms(p)]
+                if len(bound) == 1:
+                    valid(r, "%s.all_%d_coefficients_covered[loop %d]" % (which, n, k), [], tm.eq(tm.to_bool(bound[0]), tm.lt(i, I(n))), kind="establishment")
+                else:
+                    put(r, "%s.loop_bound_recognised[loop %d]" % (which, k), False, repr(s.pc), undecided=True)
+            tokw = [(key, ix, v) for key, ix, v in ws if key in (("f", "s", "P"), ("f", "coef", "R"), ("f", "name", "P"))]
+            if tokw:
+                seen["tok"] += 1
+                nt = tm.sym("iter_next_token", "P")
+                cnt = fld0(ex, s, "count_trxn", "I")
+                dst = None
+                for key, ix, v in tokw:
+                    a = ix[0]
+                    okdst = a.op == "+" and a.args[1] is cnt and a.args[0].op == "select" and "#vdata" in repr(a.args[0].args[0]) and a.args[0].args[1] == (tm.app("fld:token", (tm.app("fld:trxn", (THIS,), "P"),), "P"),)
+                    put(r, "token.%s_appended_at_count_trxn" % key[1], okdst, repr(a), kind="frame")
+                    if key[1] == "coef":
+                        eqr(r, "token.coefficient==multiple*source_coefficient", hy, v, coef * fld0(ex, s, "coef", "R", nt))
+                    if key[1] == "s":
+                        put(r, "token.species_is_the_source_token's", v is fld0(ex, s, "s", "P", nt), repr(v))
+                put(r, "token.all_three_fields_written", len(tokw) == 3, repr([k_[1] for k_, _, _ in tokw]), kind="frame")
+                valid(r, "token.count_trxn_advances_by_one", hy, tm.eq(fld(ex, s, "count_trxn", "I"), cnt + I(1)))
+                valid(r, "token.walk_advances_by_one_token", hy, tm.eq(local(info, s, "next_token"), nt + I(1)))
+                valid(r, "token.walk_ends_at_the_null_species_sentinel", [], tm.eq(tm.to_bool([p for p in s.pc if nt in tm.subterms(p)][0]), nonnull(fld0(ex, s, "s", "P", nt))), kind="establishment")
+    put(r, "reach.all_regions", all(v >= 1 for v in seen.values()), repr(seen), kind="vacuity", undecided=True)
+    # the walk starts at token 0 of the source
+    wl = [k for k, sts in info["iter"].items() if any("next_token" in info["names"] and sts2.locals.get(info["names"]["next_token"]) is not None for sts2 in sts)]
+    for k in wl:
+        for s in info["entry"].get(k, []):
+            v = s.locals.get(info["names"]["next_token"])
+            okv = v is not None and not isinstance(v, tuple) and v.op == "select" and "#vdata" in repr(v.args[0]) and v.args[1] == (tm.app("fld:token", (rref,), "P"),)
+            put(r, "token.walk_starts_at_token_0_of_the_source", okv, repr(v), kind="establishment")
+    for s in lives(fin, ("ret",)):
+        comb = proved(list(s.pc), tm.sym("P2_combine", "B")) if tm.sym("P2_combine", "B") in set().union(*[set(tm.subterms(p)) for p in s.pc]) else None
+        has = bool(events(s, "trxn_combine", it=False))
+        if comb is True or (comb is None and has):
+            put(r, "exit.combine_requested=>like_terms_combined", has, "", kind="trace")
+    # first addition copies log K unscaled: every call that follows `count_trxn = 0` must pass the multiple 1
+    import glob
+    nsite = 0
+    for path in sorted(glob.glob(os.path.join(REPO, "src/phreeqcpp/*.cpp"))):
+        rel = os.path.relpath(path, REPO)
+        txt = src(rel).decode("latin1")
+        for m in re.finditer(r"count_trxn\s*=\s*0\s*;\s*(?:/\*.*?\*/\s*)*(trxn_add(?:_phase)?)\s*\(([^;]*?),\s*([^,;]*?),\s*(\w+)\s*\)\s*;", txt, re.S):
+            nsite += 1
+            put(r, "callers.first_addition_into_an_empty_work_reaction_has_multiple_1[%s:%d]" % (rel.split("/")[-1], txt.count("\n", 0, m.start()) + 1),
+                m.group(3).strip() in ("1.0", "1", "1.0e0"), m.group(3), kind="structural", backend="syntactic")
+    put(r, "reach.call_sites", nsite >= 8, "%d" % nsite, kind="vacuity", undecided=True)
+    r.assumptions += ["CReaction::Get_logk/Get_dz return the arrays of the source reaction", "doubles as reals", "trxn_combine (sorting, merging like terms) is not under this contract",
+                      "call-site obligation is text-anchored (a trxn_add directly after `count_trxn = 0;`)"]
+    return r
+
+
+def unit_rewrite_master(twin=False):
+    """rewrite_master_to_secondary(m1, m2): work reaction := rxn_primary(m1) + k * rxn_primary(m2) with k chosen so that the common
+    primary master species cancels: c1 + k*c2 == 0, c_j = coefficient of that species in rxn_primary(m_j).  Masters of different elements
+    or a reaction without the primary master: error, nothing added."""
+    q = "Phreeqc::rewrite_master_to_secondary"
+    fn = A.find_function(PREP, q)
+    r = U.new_unit("C01.rewrite_master_to_secondary.difference_of_primary_reactions_cancels_the_primary_master", PREP, q, fn)
+    c = ctx(functional=("rxn_find_coef", "equal"))
+    c.snapshot = {"trxn_add": [("count_trxn", "I")]}
+    f, ex, fin, info = U.run_function(PREP, q, ctx=c)
+    m1, m2 = tm.sym("P0_master_ptr1", "P"), tm.sym("P1_master_ptr2", "P")
+    nok = nerr = 0
+    for s in lives(fin, ("ret",)):
+        hy = list(s.pc)
+        F = lambda name, so, o: fld0(ex, s, name, so, o)
+        p1 = F("primary", "P", F("elt", "P", m1)); p2 = F("primary", "P", F("elt", "P", m2))
+        adds = events(s, "trxn_add", it=False)
+        if adds:
+            nok += 1
+            valid(r, "ok.same_element(primary masters equal and not null)", hy, tm.and_(tm.eq(p1, p2), nonnull(p1)))
+            put(r, "ok.two_reactions_added", len(adds) == 2, "%d" % len(adds), kind="trace")
+            if len(adds) != 2:
+                continue
+            a, b = adds
+            rp1, rp2 = F("rxn_primary", "I", m1), F("rxn_primary", "I", m2)
+            put(r, "ok.first_is_primary_reaction_of_master1_times_1", a.args[0] is rp1 and tm.isnum(a.args[1]) and a.args[1].args[0] == 1, repr(a.args[:2]), kind="trace")
+            snap = a.snap or {}
+            cnt = snap.get("count_trxn") if isinstance(snap, dict) else None
+            put(r, "ok.work_reaction_emptied_first(count_trxn==0 at the first addition)", cnt is not None and tm.isnum(cnt) and cnt.args[0] == 0, repr(a.snap), kind="trace")
+            put(r, "ok.second_is_primary_reaction_of_master2", b.args[0] is rp2, repr(b.args[0]), kind="trace")
+            finds = events(s, "rxn_find_coef", it=False)
+            pname = F("name", "P", F("s", "P", p1))
+            byrx = {e.args[0]: e for e in finds}
+            okf = rp1 in byrx and rp2 in byrx and all(e.args[1] is pname for e in finds)
+            put(r, "ok.coefficients_looked_up_for_the_primary_master_species_in_both_reactions", okf, repr([e.args for e in finds]), kind="trace")
+            if okf:
+                c1, c2 = byrx[rp1].result, byrx[rp2].result
+                k = b.args[1]
+                eqr(r, "ok.multiple_cancels_the_primary_master(c1+k*c2==0)", hy + [tm.not_(tm.eq(c2, tm.num(0)))], (c1 + k * c2) * c2, tm.num(0) if not twin else c1 * c2)
+            valid(r, "ok.returns_OK", hy, tm.eq(s.ret, I(1)))
+        else:
+            nerr += 1
+            valid(r, "error.returns_ERROR", hy, tm.eq(s.ret, I(0)))
+            w = [v for ix, v in writes(s, ("f", "input_error", "I"))]
+            put(r, "error.counted_and_reported", len(w) == 1 and bool(events(s, "error_msg", it=False)), repr(w))
+            put(r, "error.work_reaction_untouched", not writes(s, ("f", "count_trxn", "I")), "", kind="frame")
+    put(r, "reach.ok_and_error_paths", nok == 1 and nerr == 2, "%d ok, %d error" % (nok, nerr), kind="vacuity", undecided=True)
+    r.assumptions += ["rxn_find_coef(rxn, name) returns the coefficient of the named species in rxn (0 when absent); equal(c,0,TOL)==FALSE implies c != 0",
+                      "trxn_add: unit C01.trxn_add", "OK == 1, ERROR == 0 (global_structures.h)"]
+    return r
+
+
+def unit_switch_bases(twin=False):
+    """switch_bases: for a mole-balance unknown whose first master species is dominated (by > 10 log units) by another redox state, the
+    two masters are SWAPPED (no master lost), the new basis species is in the model (in = TRUE), the old one is rewritten (in = REWRITE),
+    and the unknown's log activity is that of the new basis species: la = lm + lg of it.  TRUE is returned so that the model is rebuilt."""
+    q = "Phreeqc::switch_bases"
+    fn = A.find_function(PREP, q)
+    r = U.new_unit("C01.switch_bases.swaps_masters_and_takes_la=lm+lg_of_the_new_basis", PREP, q, fn)
+    REWRITE = int(hdr_define("REWRITE"))
+    # (1) the search loop keeps the invariant  first != 0 => la == lm+lg of master[first]
+    k = the_loop(fn, PREP, "la1=", what="search for a more active master")
+    f, ex, its, info = run_iter(PREP, q, k)
+    drop_head(q, k)
+    j = tm.sym("iter_j", "I"); la0 = tm.sym("iter_la", "R"); f0 = tm.sym("iter_first", "I")
+    nup = nkeep = 0
+    for s in lives(its, ("run", "cont")):
+        hy = list(s.pc)
+        xi = vec_elem(ex, s, "x", local(info, s, "i"))
+        mj = vec_elem(ex, s, "master", j, owner=xi)
+        sj = fld0(ex, s, "s", "P", mj)
+        laj = fld0(ex, s, "lm", "R", sj) + (fld0(ex, s, "lg", "R", sj) if not twin else tm.num(0))
+        la1, f1 = local(info, s, "la"), local(info, s, "first")
+        put(r, "search.writes_no_memory", not U.iter_writes(s), "", kind="frame")
+        if f1 is f0:
+            nkeep += 1
+            put(r, "search.no_candidate=>la_unchanged", la1 is la0, repr(la1))
+            valid(r, "search.a_later_candidate_is_kept_out_only_when_not_more_active_than_the_best_so_far", hy, tm.or_(tm.eq(f0, I(0)), tm.le(laj, la0)))
+        else:
+            nup += 1
+            valid(r, "search.candidate_index_is_this_master", hy, tm.eq(f1, j))
+            eqr(r, "search.la_becomes_lm+lg_of_the_candidate's_species", hy, la1, laj)
+            valid(r, "search.candidate_taken_only_when_more_active_than_the_best_so_far", hy, tm.lt(la0, laj))
+    for s in lives(its, ("run", "cont"))[:1]:
+        xi = vec_elem(ex, s, "x", local(info, s, "i"))
+        b = [p for p in s.pc if j in tm.subterms(p) and "#vsize" in repr(p)]
+        valid(r, "search.covers_every_master_of_the_unknown", [], tm.eq(tm.to_bool(b[0]) if b else tm.FALSE, tm.lt(j, tm.select(entry_arr(ex, s, ("f", "#vsize", "I")), tm.app("fld:master", (xi,), "P")))), kind="establishment")
+    put(r, "reach.search_paths", nup >= 2 and nkeep >= 1, "%d updating, %d keeping" % (nup, nkeep), kind="vacuity", undecided=True)
+    init = loops_of(fn)[k]["inner"][0]
+    f2, ex2, fin2, info2 = region(PREP, q, [init])
+    for s in lives(fin2):
+        v = local(info2, s, "j")
+        put(r, "search.starts_at_master_1(master 0 is the current basis)", tm.isnum(v) and v.args[0] == 1, repr(v), kind="establishment")
+    # (2) the swap
+    blk = ifs_with_then(fn, PREP, "return_value=TRUE")
+    if len(blk) != 1:
+        raise Undecided("switch block (the branch that sets return_value = TRUE) of switch_bases not found (%d)" % len(blk))
+    f3, ex3, fin3, info3 = region(PREP, q, [blk[0]])
+    first, la, iL = tm.sym("L_first", "I"), tm.sym("L_la", "R"), tm.sym("L_i", "I")
+    nsw = nno = 0
+    for s in lives(fin3, ("run",)):
+        hy = list(s.pc)
+        xi = vec_elem(ex3, s, "x", iL)
+        m0 = vec_elem(ex3, s, "master", I(0), owner=xi); mf = vec_elem(ex3, s, "master", first, owner=xi)
+        if all(not writes(s, key) for key in s.heap):
+            nno += 1
+            valid(r, "no_switch.only_when_no_more_active_master_was_found(first==0)", hy, tm.eq(first, I(0)))
+            put(r, "no_switch.result_unchanged", local(info3, s, "return_value") is tm.sym("L_return_value", "I"), "", kind="frame")
+            continue
+        nsw += 1
+        valid(r, "switch.whenever_a_more_active_master_was_found(first!=0)", hy, tm.not_(tm.eq(first, I(0))))
+        hy2 = hy + [tm.not_(tm.eq(m0, mf)), tm.lt(I(0), first)]
+        n0 = vec_elem(ex3, s, "master", I(0), owner=xi, entry=False); nf = vec_elem(ex3, s, "master", first, owner=xi, entry=False)
+        valid(r, "switch.new_basis_is_the_candidate(master[0]' == master[first])", hy2, tm.eq(n0, mf))
+        valid(r, "switch.old_basis_kept_in_the_list(master[first]' == master[0])", hy2, tm.eq(nf, m0))
+        valid(r, "switch.new_basis_in_model(in == TRUE)", hy2, tm.eq(fld(ex3, s, "in", "I", mf), I(1)))
+        valid(r, "switch.old_basis_marked_REWRITE", hy2, tm.eq(fld(ex3, s, "in", "I", m0), I(REWRITE if not twin else 0)))
+        eqr(r, "switch.unknown_la==la_of_the_candidate", hy2, fld(ex3, s, "la", "R", xi), la)
+        valid(r, "switch.basis_species_la==la_of_the_candidate", hy2 + [tm.not_(tm.eq(fld0(ex3, s, "s", "P", mf), xi))], tm.eq(fld(ex3, s, "la", "R", fld0(ex3, s, "s", "P", mf)), la))
+        rv = local(info3, s, "return_value")
+        put(r, "switch.reports_TRUE_so_the_model_is_rebuilt", tm.isnum(rv) and rv.args[0] == 1, repr(rv))
+        other = [key for key in s.heap if writes(s, key) and key not in (("m", "P"), ("f", "in", "I"), ("f", "la", "R"), ("f", "error_string", "P"))]
+        put(r, "switch.frame(only the master list, in flags and the two la)", not other and len(writes(s, ("m", "P"))) == 2 and len(writes(s, ("f", "in", "I"))) == 2 and len(writes(s, ("f", "la", "R"))) == 2, repr(other), kind="frame")
+    put(r, "reach.switch_and_no_switch", nsw == 1 and nno == 1, "%d/%d" % (nsw, nno), kind="vacuity", undecided=True)
+    # (3) only mole-balance unknowns are examined; the result is what the switch block left
+    f4, ex4, its4, info4 = run_iter(PREP, q, 0, ctx(enums_from="global_structures.h", enums=("MB", "PITZER_GAMMA")))
+    MB = ctx(enums_from="global_structures.h", enums=("MB",)).enum_values["MB"]
+    for s in lives(its4, ("run", "cont", "brk")):
+        xi = vec_elem(ex4, s, "x", tm.sym("iter_i", "I"))
+        if any(writes(s, key) for key in s.heap) or (getattr(ex4, "iter_written", None) and s.status == "run"):
+            valid(r, "outer.only_MB_unknowns_are_switched", list(s.pc), tm.eq(fld0(ex4, s, "type", "I", xi), I(MB)))
+            break
+    ff, exf, finf, infof = U.run_function(PREP, q, ctx=ctx())
+    for s in lives(finf, ("ret",)):
+        put(r, "exit.returns_the_switch_flag", s.ret is local(infof, s, "return_value"), repr(s.ret))
+    r.assumptions += ["TRUE == 1; REWRITE from global_structures.h", "the masters of one unknown are distinct objects", "doubles as reals", "the size of the switching threshold (10 log units) is not pinned, only that a switch goes to a MORE active master",
+                      "rebuilding the model after a switch (model(): build_model) is not under this contract"]
+    return r
+
+
+def hdr_define(name):
+    from vf.astvc import hdr
+    return hdr.define_value(GS, name)
+
+
 UNITS = [
     ("C01.rewrite_eqn_to_secondary.adds_defining_reaction_times_coefficient_until_masters", unit_rewrite_secondary),
     ("C01.rewrite_eqn_to_primary.adds_defining_reaction_times_coefficient_until_primary_masters", unit_rewrite_primary),
+    ("C01.trxn_add.logk_and_tokens_scaled_by_the_same_multiple", unit_trxn_add),
+    ("C01.rewrite_master_to_secondary.difference_of_primary_reactions_cancels_the_primary_master", unit_rewrite_master),
+    ("C01.switch_bases.swaps_masters_and_takes_la=lm+lg_of_the_new_basis", unit_switch_bases),
 ]
